@@ -4,6 +4,17 @@ Workloads (DESIGN.md section 3/C19), all against the REAL tatsu.packetz:
   roundtrip   unpack(pack(Packet(to, data))) over hostile JSON payloads; strict equality oracle; failing cases
               are shrunk with the real code and signed by mechanism; icontract postcondition monitor on
               rle_encode/rle_decode; a fifth of the cases also travel through a real queue file.
+  code points the same oracle over a TABLE of code points (c19mon.CP_TABLE): every class a JSON string can carry -
+              all C0 controls, DEL, all C1 controls U+0080..U+009F, U+2028/U+2029, Unicode spaces, format
+              characters (BOM, ZWJ, bidi, tags), combining marks and variation selectors, non-characters,
+              U+FFFC/U+FFFD, private use, astral planes, non-ASCII digits, compatibility look-alikes of the
+              encoding's own characters, BMP letters up to U+D7FF.  Swept deterministically: each code point x
+              each of 55 contexts (alone, runs of itself, next to tildes / digits / runs >=4 / ESC and CSI
+              tails / quotes / backslashes / JSON punctuation / "@": and __class__ text), placed as recipient,
+              payload, list element, dict value and dict KEY down to depth 4; every such packet is also sent
+              through a real queue file and drained by a fresh reader.  The random generator draws from the
+              whole extent of the same classes; the interleave, crash, corrupt and stress records carry texts of
+              the table too.  Lone surrogates are outside (not UTF-8 encodable; pack() refuses them).
   interleave  EVERY valid sequence of <=K operations over {send, begin/complete a partial write, re-append
               a complete line, drain reader 1/2, next() on reader 1/2's open iterator}, checked online
               against the sequential model "append-only log + one cursor and one delivered-set per reader".
@@ -40,14 +51,24 @@ ID = 'C19'
 LEVEL = 'fault_enumeration'
 RULE = ('round trip: one case = (to, data) drawn from a generator over nested dict/list/str/scalars built from the '
         "encoding's own characters (tildes, runs >=4 of 15 character classes, digits next to runs, ~cN~ look-alikes, "
-        'quotes, backslashes, literal \\e, ESC, "@":/__class__ text and keys, f{ prefixes, control and astral chars); '
-        'non-trivial = it carries at least one such feature and was packed and unpacked by the real code. '
+        'quotes, backslashes, literal \\e, ESC, "@":/__class__ text and keys, f{ prefixes, and characters drawn from the '
+        'whole extent of 14 code-point classes: C0, DEL, C1, line/paragraph separators, Unicode spaces, format '
+        'characters, combining marks, non-characters, specials, private use, astral planes, non-ASCII digits, '
+        'look-alikes of the encoding characters, BMP letters); non-trivial = it carries at least one such feature '
+        'and was packed and unpacked by the real code. code-point sweep: one case = (code point of the table, one of '
+        '55 contexts, position in the packet: recipient / payload / list element / dict value / dict key down to depth '
+        '4); every code point meets every context (quick: the position rotates with code point, context and seed; '
+        'thorough: every position); each case is also sent through a queue file and drained. '
         'interleave: one case = one valid operation sequence (distinct by the sequence and the split point of the '
         'partial write), non-trivial = at least one packet was delivered. crash: one case = (record, byte offset of '
         'the cut, reader state, second cut). corrupt: one case = (record, byte offset, replacement byte, reader '
         'state). stress: one case = one packet delivered to one reader and verified against the recorded history')
 ASSUMPTIONS = [
     'payloads are JSON data (str keys, finite floats, no lone surrogates); tuples/sets/NaN are outside the statement',
+    'a JSON string is a sequence of Unicode scalar values (RFC 8259 section 7/8): every code point of every class in '
+    'c19mon.CP_TABLE must come back unchanged - no normalisation, no stripping of controls, format characters or '
+    'non-characters; lone surrogates are not encodable as UTF-8 (the real pack() raises UnicodeEncodeError on the '
+    'unchanged tree) and stay outside the alphabet',
     'the sequential model (append-only log of complete lines, per reader a cursor and the set of delivered packet '
     'ids) is the specification of the queue; a line appended twice (re-transmission of the same packet, same id) '
     "is the same packet and is delivered once, as the package's own bench_dedup expects",
@@ -63,10 +84,13 @@ ASSUMPTIONS = [
     'receive_0 (legacy, not reachable from send/receive/receive_async) is not exercised',
 ]
 EXHAUSTIVE = {
-    'quick': 'interleave: all valid sequences of <=6 operations over {S,W,D,R1,R2,N1,N2}; crash: every byte offset '
+    'quick': 'code points: every code point of the table (all of C0, C1, DEL, U+2028/9 and the listed members of 10 '
+             'further classes) x every context; interleave: all valid sequences of <=6 operations over '
+             '{S,W,D,R1,R2,N1,N2}; crash: every byte offset '
              'of each of 30 last records (<2 KiB; larger records: 400 edge offsets + chunk boundaries) x '
              '{fresh, warm} readers; corrupt: every byte offset of 3 records per file x 5 replacement bytes',
-    'thorough': 'interleave: all valid sequences of <=7 operations x 4 split points of the partial write; crash: every '
+    'thorough': 'code points: every code point of the table x every context x every position; '
+                'interleave: all valid sequences of <=7 operations x 4 split points of the partial write; crash: every '
                 'byte offset of each of 2000 last records (<2 KiB; larger: edge offsets + chunk boundaries) x '
                 '{fresh, warm} readers; corrupt: every byte offset of 3 records per file x 5 replacement bytes, 128 files',
 }
@@ -140,6 +164,44 @@ FLOORS = {
     },
 }
 
+
+
+def _cp_floors(tier):
+    """the sweep is a fixed plan: its counters have exact floors (a run that does not reach a class, a context
+    group or a position is INCONCLUSIVE)"""
+    nclean = len(M.CP_CLEAN_CONTEXTS)
+    per_ctx = len(M.CP_POSITIONS) if tier == 'thorough' else 1
+    ncp = len(M.CP_SWEEP)
+    f = {
+        'cp_sweep_cases': ncp * (nclean * per_ctx + (len(M.CP_CONTEXTS) - nclean)),
+        'cp_sweep_ok': ncp * nclean * per_ctx,
+        'cp_sweep_codepoints': ncp,
+        'cp_sweep_codepoints_ok_in_every_context': ncp,
+    }
+    for cls, (_, sweep) in M.CP_TABLE.items():
+        n = len(sweep) * nclean * per_ctx
+        f['cp_sweep_ok_class:' + cls] = n
+        f['rt_ok_cp:' + cls] = n
+        f['hq_delivered_ok_cp:' + cls] = n
+        f['il_deliveries_cp:' + cls] = 8 * len(sweep)
+    for g in M.CP_CTX_GROUPS:
+        k = sum(1 for x in M.CP_CLEAN_CONTEXTS if x[0] == g)
+        if k:
+            f['cp_sweep_ok_ctx:' + g] = ncp * k * per_ctx
+    for pname, _ in M.CP_POSITIONS:
+        f['cp_sweep_ok_pos:' + pname] = ncp * nclean if tier == 'thorough' else ncp * nclean // 20
+    for w in ('recipient', 'key', 'value', 'key_depth3', 'value_depth3'):
+        f['rt_ok_cp_in:' + w] = ncp * nclean // 20
+    return f
+
+
+FLOORS['quick'].update(_cp_floors('quick'))
+FLOORS['quick'].update({'queue_records_with_code_point_table_text': 12,
+                        'stress_deliveries_with_code_point_table_text': 3000})
+FLOORS['thorough'].update(_cp_floors('thorough'))
+FLOORS['thorough'].update({'queue_records_with_code_point_table_text': 400,
+                           'stress_deliveries_with_code_point_table_text': 50000})
+
 OPS = ('S', 'W', 'D', 'R1', 'R2', 'N1', 'N2')
 SENTINEL = -1
 
@@ -150,7 +212,8 @@ def plan(tier, seed):
     shards = []
     k = RT_SHARDS[tier]
     for i in range(k):
-        shards.append({'mode': 'roundtrip', 'seed': seed, 'shard': i, 'n': N_ROUNDTRIP[tier] // k})
+        shards.append({'mode': 'roundtrip', 'seed': seed, 'shard': i, 'n': N_ROUNDTRIP[tier] // k, 'of': k,
+                       'every_position': tier == 'thorough'})
     for i in range(STRESS_SHARDS[tier]):
         shards.append({'mode': 'stress', 'seed': seed, 'shard': i, 'tier': tier})
     for i in range(IL_SHARDS[tier]):
@@ -229,7 +292,13 @@ def check_roundtrip(acc, to, data, origin):
         acc.count('rt_ok')
         for f in feats:
             acc.count('rt_ok_feat:' + f)
-        if feats:
+        classes = M.cp_classes(to, data)
+        for c in classes:
+            acc.count('rt_ok_cp:' + c)
+        if classes:
+            for w in M.cp_where(to, data):
+                acc.count('rt_ok_cp_in:' + w)
+        if feats or classes:
             acc.nontriv('rt', to, data)
         return True
     acc.count('rt_failed')
@@ -238,7 +307,10 @@ def check_roundtrip(acc, to, data, origin):
     t2, d2, kind = M.shrink_case(to, data)
     sig = M.classify(t2, d2, kind)
     o2 = M.roundtrip_outcome(t2, d2)
-    acc.violation(sig, f'unpack(pack(Packet(to={t2!r}, data={d2!r}))) -> {o2}',
+    sweep = origin.get('sweep') if isinstance(origin, dict) else None
+    acc.violation(sig, f'unpack(pack(Packet(to={t2!r}, data={d2!r}))) -> {o2}'
+                  + (f' [code-point sweep: U+{sweep[1]:04X} ({sweep[0]}), context {sweep[2]}, placed as {sweep[3]}]'
+                     if sweep else ''),
                   {'mode': 'roundtrip', 'to': t2, 'data': d2, 'origin': origin,
                    'original': {'to': to, 'data': data}})
     return False
@@ -276,6 +348,8 @@ def hostile_queue_batch(acc, batch, tag):
         ps = got.get(i, [])
         if len(ps) == 1 and M.same(wrapped, ps[0].data) and M.same(to, getattr(ps[0], 'to', None)):
             acc.count('hq_delivered_ok')
+            for c in M.cp_classes(to, wrapped['p']):
+                acc.count('hq_delivered_ok_cp:' + c)
             continue
         direct = M.roundtrip_outcome(to, wrapped)
         if direct[0] != 'ok':
@@ -313,6 +387,45 @@ def report_rle_monitor(acc, mon):
                       {'mode': 'rle', 's': s2, 'original': text})
 
 
+def run_cp_sweep(desc, acc):
+    """every code point of the table x every context, as recipient / key / value at depth: the real
+    pack/unpack, and the same packets through a real queue file (send, fresh reader, drain)"""
+    plan_ = M.cp_sweep_plan(desc['seed'], desc['shard'], desc.get('of', 1), desc.get('every_position', False))
+    failed = set()
+    seen = {}
+    batch = []
+    sampled = 0
+    for cls, cp, group, name, pname, to, data in plan_:
+        acc.count('cp_sweep_cases')
+        seen.setdefault(cp, cls)
+        if group == 'known_bad':
+            acc.count('cp_sweep_cases_next_to_text_known_not_to_round_trip')
+        ok = check_roundtrip(acc, to, data, {'sweep': [cls, cp, name, pname], 'shard': desc['shard']})
+        if group == 'known_bad':
+            if ok:
+                acc.count('cp_sweep_known_bad_text_round_tripped')
+            continue
+        if not ok:
+            failed.add(cp)
+            continue
+        acc.count('cp_sweep_ok')
+        acc.count('cp_sweep_ok_class:' + cls)
+        acc.count('cp_sweep_ok_ctx:' + group)
+        acc.count('cp_sweep_ok_pos:' + pname)
+        batch.append((to, data))
+        if len(batch) == 20:
+            hostile_queue_batch(acc, batch, f"{desc['shard']}-cp")
+            batch = []
+        if sampled < 2 and cls in ('c1', 'nonchar') and group == 'tilde':
+            sampled += 1
+            acc.sample({'workload': 'code-point sweep', 'class': cls, 'code_point': f'U+{cp:04X}', 'context': name,
+                        'placed_as': pname, 'to': to, 'data': data})
+    if batch:
+        hostile_queue_batch(acc, batch, f"{desc['shard']}-cp")
+    acc.count('cp_sweep_codepoints', len(seen))
+    acc.count('cp_sweep_codepoints_ok_in_every_context', len([cp for cp in seen if cp not in failed]))
+
+
 def run_roundtrip(desc, acc):
     mon = M.RLEMonitor()
     if not mon.install():
@@ -331,6 +444,9 @@ def run_roundtrip(desc, acc):
                     batch = []
             if i in (1, 2):
                 acc.sample({'workload': 'roundtrip', 'to': to, 'data': data})
+        if batch:
+            hostile_queue_batch(acc, batch, f"{desc['shard']}")
+        run_cp_sweep(desc, acc)
     finally:
         mon.uninstall()
     if mon.engine != 'none':
@@ -376,9 +492,10 @@ def split_point(line: bytes, kind: int) -> int:
 class SeqRun:
     """one operation sequence on a fresh file with one writer and two readers, against the model"""
 
-    def __init__(self, path, split_kind):
+    def __init__(self, path, split_kind, salt=0):
         from tatsu.packetz.queue import PacketzQueue
         self.path = path
+        self.salt = salt          # != 0: every record also carries a text of the code-point table
         reset_file(path)
         self.writer = PacketzQueue(path)
         self.readers = [PacketzQueue(path), PacketzQueue(path)]
@@ -398,7 +515,10 @@ class SeqRun:
     def _new(self):
         n = self.nrec
         self.nrec += 1
-        return n, {'n': n, 'pad': PADS[n % len(PADS)]}
+        pad = PADS[n % len(PADS)]
+        if self.salt:
+            pad += M.wide_pad(self.salt * 8 + n)
+        return n, {'n': n, 'pad': pad}
 
     def op_S(self):
         n, data = self._new()
@@ -570,8 +690,8 @@ class SeqRun:
                 self.failure = ('queue/lost', f'reader {i + 1} ended with {sorted(self.delivered[i])} of {want}')
 
 
-def run_sequence(acc, seq, split_kind, path='il.jsonl'):
-    run = SeqRun(path, split_kind)
+def run_sequence(acc, seq, split_kind, path='il.jsonl', salt=0):
+    run = SeqRun(path, split_kind, salt)
     run.run(seq)
     acc.evaluations += 1
     ev = run.events
@@ -586,10 +706,20 @@ def run_sequence(acc, seq, split_kind, path='il.jsonl'):
         acc.count('il_receive_exceptions:' + k, v)
     if ev['deliveries']:
         acc.nontriv('il', list(seq), split_kind)
+    if salt:
+        tally = {}
+        for n, r in run.recs.items():
+            k = sum(1 for d in run.delivered if n in d)
+            if k:
+                for c in M.cp_classes(None, r['data']['pad']):
+                    tally[c] = tally.get(c, 0) + k
+        for c, k in tally.items():
+            acc.count('il_deliveries_cp:' + c, k)
     if run.failure:
         sig, what = run.failure
-        acc.violation(sig, f'sequence {" ".join(seq)} (split {split_kind}): {what}',
-                      {'mode': 'interleave', 'seq': list(seq), 'split': split_kind})
+        acc.violation(sig, f'sequence {" ".join(seq)} (split {split_kind}): {what}'
+                      + (f'; records: {[r["data"] for r in run.recs.values()]!r}' if salt else ''),
+                      {'mode': 'interleave', 'seq': list(seq), 'split': split_kind, 'salt': salt})
     return run
 
 
@@ -648,7 +778,7 @@ def run_interleave(desc, acc):
             has_w = 'W' in seq
             kinds = (0, 1, 2, 3) if (desc['all_splits'] and has_w) else ((h64('split', seq) % 4,) if has_w else (0,))
             for sk in kinds:
-                run = run_sequence(acc, seq, sk)
+                run = run_sequence(acc, seq, sk, salt=idx)
                 if sampled < 2 and k == desc['k'] and run.events['deliveries'] >= 3 and has_w:
                     sampled += 1
                     acc.sample({'workload': 'interleave', 'seq': ' '.join(seq), 'split': sk,
@@ -667,7 +797,13 @@ def build_records(rng, n, acc, path):
         v = clean_payload(rng, acc)
         if i % 11 == 5:
             v = {'big': M._block() * 3, 'v': v}        # crosses the text layer's 8 KiB chunk
+        elif i % 3 == 1:
+            t = M.wide_pad(rng.randrange(1 << 30))     # a (code point x context) text of the table
+            v = {t: [v, t]} if i % 2 else [t, v]
+            acc.count('queue_records_with_code_point_table_text')
         data = {'n': i, 'p': v}
+        for c in M.cp_classes(None, v):
+            acc.count('queue_records_cp:' + c)
         w.send(to='r', data=data)
         datas.append(data)
     with open(path, 'rb') as f:
@@ -1075,6 +1211,8 @@ def run_stress(desc, acc):
             for s, n, ok in c['items']:
                 if ok and n % 4 == 0:
                     acc.nontriv('stress', rname, s, n)
+                if ok and type(n) is int and M.stress_has_table_text(s, n):
+                    acc.count('stress_deliveries_with_code_point_table_text')
     for e in sorted({c['exc'] for calls in rd.values() for c in calls if c.get('exc')}):
         acc.count('stress_receive_exception_class:' + e)
     acc.sample({'workload': 'stress', 'senders': '4 threads + 4 processes', 'readers': sorted(rd),
@@ -1142,7 +1280,7 @@ def replay(w, acc):
         elif mode == 'hostile_queue':
             hostile_queue_batch(acc, [tuple(x) for x in w['batch']], 'replay')
         elif mode == 'interleave':
-            run_sequence(acc, tuple(w['seq']), w['split'])
+            run_sequence(acc, tuple(w['seq']), w['split'], salt=w.get('salt', 0))
         elif mode == 'idclock':
             run_idclock(acc)
         elif mode == 'crash':
@@ -1161,7 +1299,9 @@ def replay(w, acc):
 
 MANIFEST = {
     'technique': 'runtime monitoring: round-trip equality oracle + icontract postcondition on the RLE codec over hostile '
-                 'payloads; sequential reference model checked online over every enumerated operation sequence; '
+                 'payloads and over a deterministic sweep of a code-point table (every class of character a JSON string '
+                 'can carry x every context next to the encoding characters x recipient/key/value positions, each also '
+                 'through a real queue file); sequential reference model checked online over every enumerated operation sequence; '
                  'crash-point and byte-corruption enumeration on real queue files; offline exactly-once/order/visibility '
                  'checker over the recorded call/return history of a threads+processes stress run',
     'level_text': 'the fault space is enumerated: the queue file is cut at every byte offset of the last record (fresh, warm '
